@@ -413,6 +413,13 @@ func (c *Ctx) execBlock(fr *frame, b *ssa.BasicBlock, st *State) {
 		switch x := in.(type) {
 		case *ssa.If:
 			cv := c.operand(st, x.Cond).T()
+			if c.knownTrue != nil {
+				if c.knownTrue[cv] {
+					cv = True
+				} else if c.knownTrue[Not(cv)] {
+					cv = False
+				}
+			}
 			if cv.IsConst() {
 				k := 1
 				if cv.IsTrue() {
